@@ -13,7 +13,7 @@ func VerifStepEntry() {
 	verifrt.HavocState(&P, "p")
 	choice := verifrt.NondetInt("choice")
 	verifrt.Assume(choice >= 0 && choice < NumChoices)
-	verifrt.Assume(StateRange() && P.ArgRollback <= NX+1 && P.DevCode >= 0 && P.DevCode <= 16)
+	verifrt.Assume(StateRange() && P.ArgRollback <= NX+1 && P.DevCode >= 0 && P.DevCode <= 16 && P.RejectKind >= 0 && P.RejectKind <= 2)
 	verifrt.Cover("pre")
 	pre := S
 	Step(choice)
